@@ -83,6 +83,7 @@ class FieldArrayModel(FieldCompositeModel):
     def pre_randomize(self, visited):
         # The number of elements that the list holds when the call starts
         self.presolve_len = len(self.field_l)
+        self.presolve_tail = None
         # Set the size field for arrays that don't
         # have a random size
         if self.is_rand_sz:
